@@ -105,6 +105,13 @@ def stage_of(spec: dict, ref: str) -> dict:
     raise KeyError(ref)
 
 
+def or_branch_refs(spec: dict) -> set[str]:
+    """Stages that are conditional branches of an OR-split: for them StartStage / SkipStage are the split's routing
+    decision, not an idempotent nudge - a stray StartStage would BE a decision the split did not take."""
+    splits = {s["ref"] for s in spec["stages"] if s.get("split") == "OR"}
+    return {s["ref"] for s in spec["stages"] if splits & set(s.get("req") or [])}
+
+
 def early_join_refs(spec: dict) -> set[str]:
     """Stages at or below a join that may fire before all its upstreams finished."""
     out: set[str] = set()
